@@ -29,8 +29,9 @@ OTHERS = {
 CONTEXTS = {
     "bare": "%s", "and-r": "(%s) and True", "and-l": "True and (%s)", "or-r": "(%s) or False", "or-l": "False or (%s)", "not": "not (%s)",
     "not-and": "not (%s) and True", "any": "any((%s) for _i in [1])", "chain-after-true": "%s", "chain-before-true": "%s",
+    "chain3": "%s", "chain4": "%s",
 }
-CTX_EXPECT = {"chain-after-true": False, "chain-before-true": False, "bare": False, "and-r": False, "and-l": False, "or-r": False, "or-l": False, "not": True, "not-and": True, "any": False}
+CTX_EXPECT = {"chain3": False, "chain4": False, "chain-after-true": False, "chain-before-true": False, "bare": False, "and-r": False, "and-l": False, "or-r": False, "or-l": False, "not": True, "not-and": True, "any": False}
 HOW = ["Selector", "CompiledSelector", "make_selector", "make_selector_forced"]
 
 REC = rs("c8/rec", [["varint", "n"], ["string", "s"], ["float", "f"], ["boolean", "b"], ["string[]", "l"], ["path", "p"],
@@ -81,6 +82,10 @@ def run_expr(case):
     if ctx == "chain-after-true":  # the comparison is the second link of a chain whose first link is true
         cmp_ = {"left": "r.n == r.n == r.zz %s %s" % (op, o) if False else "1 == 1 and r.zz %s %s" % (op, o), "right": "%s == %s %s r.zz" % (o, o, op),
                 "both": "r.zz %s r.zq == r.zq" % op}[pos]
+    elif ctx == "chain3":  # the missing field is the 4th (or 1st) operand of a chain whose other links hold
+        cmp_ = {"left": "r.zz %s %s == %s == %s" % (op, o, o, o), "right": "%s == %s == %s %s r.zz" % (o, o, o, op), "both": "r.zz %s r.zq == r.zq == r.zq" % op}[pos]
+    elif ctx == "chain4":
+        cmp_ = {"left": "r.zz %s 0 <= 1 <= r.n <= 3" % op, "right": "0 <= r.n <= 2 <= 3 %s r.zz" % op, "both": "0 <= r.n <= 2 %s r.zz %s r.zq" % (op, op)}[pos]
     elif ctx == "chain-before-true":
         cmp_ = {"left": "r.zz %s %s == %s" % (op, o, o), "right": "r.n == r.n and %s %s r.zz" % (o, op), "both": "r.zz %s r.zq" % op}[pos]
     expr = CONTEXTS[ctx] % cmp_
